@@ -122,6 +122,18 @@ def idealOut (h : List (TMOp κ)) : TMOp κ → TMOut
 /-- the answers to a whole session: answer `i` looks back into the first `i` operations -/
 def ideal (ops : List (TMOp κ)) : List TMOut := ops.mapIdx fun i op => idealOut (ops.take i) op
 
+/-! ### the user-level reading of a session: operations `ops` and the answers `outs` they got -/
+
+/-- operation `j < i` was `take l`, it returned ticket `t`, and no `check l t` issued after it and before
+position `i` answered ready -/
+def PendingSince (ops : List (TMOp κ)) (outs : List TMOut) (i j : Nat) (l : κ) (t : Nat) : Prop :=
+  j < i ∧ ops[j]? = some (.take l) ∧ outs[j]? = some (.ticket t) ∧
+    ∀ k, j < k → k < i → ops[k]? = some (.check l t) → outs[k]? ≠ some (.checked .ready)
+
+/-- some operation strictly between positions `j` and `i` is `mark l` -/
+def MarkedBetween (ops : List (TMOp κ)) (j i : Nat) (l : κ) : Prop :=
+  ∃ k, j < k ∧ k < i ∧ ops[k]? = some (.mark l)
+
 /-! ### ScreenStack: the ideal list machine -/
 
 def idealStackStep (s : List Nat) : SOp → SOut × List Nat
